@@ -190,7 +190,8 @@ CHECKS = {
              "WriteAheadLog as a record list with the engine's persisted consumed-count; restarts (clean, killed, in-process drop) keep the logs and drop the in-memory part. Theorems, for histories of any "
              "length with any number of restarts: C21_logs_hold_ack (replaying the WHOLE of each log always gives exactly the acknowledged vote, committed id, purge point, entries and peer addresses - "
              "nothing acknowledged is ever missing from the logs), C21_reopen_reports_suffix + open_consumes (a reopened store reports exactly the replay of what no earlier read_all consumed), "
-             "C21_partial (the property itself for every history in which no open finds an already-consumed log, i.e. at most one reopen after data), C21_counterexample (two reopens: vote, committed id, "
+             "C21_partial / C21_partial_at_most_one_open_on_data (the property itself for every history in which at most one open finds a non-empty log), C21_next_open_reports_only_new (open, any operations, restart, "
+             "open: the new process sees exactly the replay of the records appended since the previous open), C21_counterexample (two reopens: vote, committed id, "
              "3 of 4 entries and the peer address are gone; replayed on the real store on every run), C21_nonconsuming_holds (over a reader that starts from the beginning the property holds for "
              "every history). Correspondence: the real WalLogStore / MemLogStoreInner / peer-record code (sliced verbatim from storage.rs and node.rs at build time) over the real WriteAheadLog and "
              "octopii's vendored engine copy, one child process per segment, ~210 programs per quick run (1500 thorough) compared line by line with LogStore.step; independent acknowledged-state oracle.",
